@@ -33,6 +33,7 @@ func c18Legs(tier string, merge bool) []pairLeg {
 		add("mixed", Mixed())
 		add("hostile-arrays", HostileArrays())
 		add("large", Large())
+		add("hostile2", HostileDocs2())
 		add("numbers", NumDocs())
 		add("strings", StrDocs())
 		add("E2", EditStates(2, 1500))
@@ -48,6 +49,7 @@ func c18Legs(tier string, merge bool) []pairLeg {
 		add("mixed", Mixed())
 		add("hostile-arrays", HostileArrays())
 		add("large", Large())
+		add("hostile2", HostileDocs2())
 		add("numbers", NumDocs())
 		add("strings", StrDocs())
 		add("E1", EditStates(1, 300))
